@@ -37,6 +37,31 @@ func (re *Regexp) Split(input string, count int) ([]string, error) {
 
 	m, err := re.FindStringMatch(input)
 
+	if re.RightToLeft() {
+		// matches arrive last-to-first: collect them, then build the parts in text order
+		var ms []*Match
+		for ; m != nil && count > 0; m, err = re.FindNextMatch(m) {
+			ms = append(ms, m)
+			count--
+		}
+		if err != nil {
+			return nil, err
+		}
+		if len(ms) == 0 {
+			return []string{input}, nil
+		}
+		txt = ms[0].text.runes
+		for i := len(ms) - 1; i >= 0; i-- {
+			retVal = append(retVal, string(txt[priorIndex:ms[i].RuneIndex]))
+			gs := ms[i].Groups()
+			for g := 1; g < len(gs); g++ {
+				retVal = append(retVal, gs[g].String())
+			}
+			priorIndex = ms[i].RuneIndex + ms[i].RuneLength
+		}
+		return append(retVal, string(txt[priorIndex:])), nil
+	}
+
 	for ; m != nil && count > 0; m, err = re.FindNextMatch(m) {
 		txt = m.text.runes
 		// if we have an m, we don't have an err
